@@ -157,6 +157,30 @@ def check_vector(v):
     return {"n": n, "nt": nt, "bad": bad}
 
 
+def check_binned(v):
+    """One behaviour of spec/Binned.tla on a real BinnedGenome: the same calls, then every contig's bin counts."""
+    import bionumpy as bnp
+    from bionumpy.datatypes import LocationEntry
+    from bionumpy.genomic_data import BinnedGenome
+    sizes, B, calls = v["sizes"], v["bin"], v["calls"]
+    names = NAMES[:len(sizes)]
+
+    def run_():
+        g = bnp.Genome.from_dict({nm: int(n) for nm, n in zip(names, sizes)})
+        bg = BinnedGenome(g.get_genome_context(), bin_size=B)
+        for batch in calls:
+            bg.count(LocationEntry([names[e[0] - 1] for e in batch], np.array([e[1] for e in batch], dtype=int)))
+        d = bg.count_dict
+        return [[int(x) for x in d[nm].tolist()] for nm in names], [[int(x) for x in bg[nm].tolist()] for nm in names]
+    o = outcome(run_)
+    bad = []
+    if o != ("ok", (v["counts"], v["counts"])):
+        bad.append({"what": "BinnedGenome counts differ from the number of positions per contig and bin", "tags": {"op": "BinnedGenome.count", "boundary": False, "ncalls": len(calls)},
+                    "vector": v, "expected": v["counts"], "observed": o})
+    multi = len(calls) > 1 or any(len(b) > 1 for b in calls)
+    return {"n": 1, "nt": [json.dumps(["binned", sizes, B, calls])] if multi else [], "bad": bad}
+
+
 def run(ctx):
     quick = ctx.tier == "quick"
     plans = [("G1", 2), ("G2", 2), ("G3", 2), ("G2b", 2)] if quick else [("G1", 3), ("G2", 3), ("G3", 3), ("G2b", 3), ("G4", 2)]
@@ -170,6 +194,13 @@ def run(ctx):
         v["_dir"] = ctx.work
     ctx.sample({k: vectors[30][k] for k in ("G", "es", "mask", "merged")})
     ctx.absorb(core.pmap(check_vector, vectors, chunk=25))
+    # binned counting over the genome (spec/Binned.tla; beyond the listed clauses, same boundary hazard: bins never span contigs)
+    for gname, b in (("G2", 2), ("G3", 2), ("G3", 3)) if quick else (("G2", 2), ("G3", 2), ("G3", 3), ("G2", 1), ("G3", 4)):
+        res = ctx.tlc("MC_Binned", tag="MC_Binned_%s_%d" % (gname, b), spec="Spec", workers=4,
+                      constants={"Sizes": "<- " + gname, "B": b, "MaxCalls": 2, "MaxPerCall": 2 if quick or gname == "G3" else 3},
+                      invariants=["CountsRight", "Conserved", "Emit"], coverage=True)
+        ctx.require_actions(res, "MC_Binned", ["Count"])
+        ctx.absorb(core.pmap(check_binned, res.vectors, chunk=100))
     ctx.exhaustive = True
     return ctx.finish(RULE, assumptions=[
         "contig names chr1, chr11, chr2, chr22 (one a prefix of another); names with '_' are covered by C12",
@@ -180,6 +211,11 @@ def run(ctx):
 
 def replay(d):
     print("replay of C10 case:", d.get("what"), d.get("tags"))
+    if d["tags"].get("op") == "BinnedGenome.count":
+        r = check_binned(d["vector"])
+        for b in r["bad"]:
+            print("  disagrees:", b["what"], "expected", b["expected"], "observed", b["observed"])
+        return 1 if r["bad"] else 0
     v = dict(d["vector"], _dir=os.path.join(core.VERIF, ".work"))
     os.makedirs(v["_dir"], exist_ok=True)
     print("  genome", v["G"], "entries", v["es"])
